@@ -364,7 +364,9 @@ func (l c18) Exec(env *core.Env) *core.Result {
 				}
 				if err != nil {
 					if (fault == "none" || fault == "add-annotation" && false) && me.FaultsSeen == faultsBefore {
-						res.Violate("C18/honest-answer-refused", key, "the plugin answered honestly but signing failed: %v", err)
+						// the statement says when a signature may be returned, not that an honest answer must be
+						// accepted: counted, not a violation
+						res.Probe("honest_answer_refused")
 					}
 					continue
 				}
